@@ -24,6 +24,9 @@ func init() {
 }
 
 func runC08(w *World, r *Report) {
+	hrCleanUpFile(w, r, "R2")
+	hrFlowNamesUnique(w, r, "R5")
+	hrValidationDirGuard(w, r, "R3")
 	hrStoreFileTruncates(w, r, "R2")
 	hrLastError(w, r, "R3")
 	fsT := "FileSystemOperation)."
